@@ -281,6 +281,21 @@ def outer_block_loops(ctx, body):
                     h, blocks = H, HB
                     break
             res.append((h, blocks, kind))
+    # a flattened iteration (`files.iter().flat_map(|f| f.blocks.iter())` driving one `for`): the files are
+    # advanced inside the loop that is the per-block iteration - it is the per-file iteration as well
+    if not any(k == "files" for _, _, k in res):
+        for h, blocks, kind in list(res):
+            if kind != "blocks":
+                continue
+            for x in blocks:
+                t = body.blocks[x]["term"]
+                if t and t["k"] == "call" and callee_matches(t, r"Iterator>?::next$"):
+                    txt = render(E.operand(t["args"][0]), 2000)
+                    if re.search(r"\.blocks\b", txt) and not iterates_blocks(txt):
+                        res.append((h, blocks, "files"))
+                        break
+            if any(k == "files" for _, _, k in res):
+                break
     return res
 
 
@@ -471,8 +486,9 @@ def _validator_views(ctx, name, vb):
         if sv is not None and sv is not vb:
             views.append([sv])
     for b in ctx.facts.with_descendants(vb):
-        if b.coroutine and any(callee_matches(t, r"tokio::task::JoinSet::<T>::spawn$") for bi, t in b.calls()):
+        if b.coroutine and any(callee_matches(t, r"tokio::task::JoinSet::<T>::spawn$") for x in ctx.facts.with_descendants(b) if not (x.coroutine and x.id != b.id) for bi, t in x.calls()):
             views.append([ctx.inl(b, skip=ctx.domain_api, tag="domain", sugar=True)])
+            break
     return views
 
 
@@ -569,6 +585,56 @@ def _err_blocks(body):
     return eb
 
 
+def _error_edge(ctx, body, cfg, x, y, h, enclosing):
+    """The edge x -> y leaves the loop on the `Err` / `None` arm of a test of a Result / Option, and with that
+    value every feasible continuation ends in an error return (path-sensitive constant propagation from y): the
+    way `try_for_each(|..| -> Result)` and `?` inside an expanded pipeline leave a loop. Statically the `?` that
+    follows has an Ok arm too - but not for this value."""
+    from engine import casewalk as CW
+    tt = body.blocks[x]["term"]
+    if not tt or tt["k"] != "switch":
+        return False
+    from rules import util as U
+    sp = U.op_place(tt["op"])
+    if sp is None or sp["p"]:
+        return False
+    src = None
+    for s in body.blocks[x]["stmts"]:
+        if s["k"] == "assign" and s["lhs"] == {"l": sp["l"], "p": []} and s["rv"]["k"] == "discr" and not s["rv"]["place"]["p"]:
+            src = s["rv"]["place"]["l"]
+    if src is None:
+        return False
+    ty = body.local_ty(src) or ""
+    vals = [v for v, tg in zip(tt["vals"], tt["targets"]) if tg == y]
+    if ty.startswith("std::result::Result<"):
+        if vals != [1] and not (not vals and tt["otherwise"] == y and tt["vals"] == [0]):
+            return False
+        val = CW.adt("std::result::Result", "Err", 1, [("0", CW.sym("ERROR"))])
+    elif ty.startswith("std::option::Option<"):
+        if vals != [0] and not (not vals and tt["otherwise"] == y and tt["vals"] == [1]):
+            return False
+        val = CW.adt("std::option::Option", "None", 0, [])
+    else:
+        return False
+    w = CW.Walk(ctx, body, [CW.std_hooks()], max_states=8000)
+    outcome = {"ok": False, "loop": False}
+
+    def on_visit(bb, env):
+        tm = body.blocks[bb]["term"]
+        if tm and tm["k"] == "return":
+            r0 = env.get(0, CW.TOP)
+            if not (r0[0] == "adt" and r0[2] in ("Err", "None")):
+                outcome["ok"] = True
+        if bb == h or bb in enclosing:
+            outcome["loop"] = True
+    w.on_visit = on_visit
+    try:
+        w.explore(y, {src: val})
+    except CW.Limit:
+        return False
+    return not outcome["ok"] and not outcome["loop"]
+
+
 def _loop_exits_ok(ctx, out, rule, name, body, cfg, h, blocks, kind):
     from rules import util as U
     if body.blocks[h].get("lazy_inner"):
@@ -618,6 +684,8 @@ def _loop_exits_ok(ctx, out, rule, name, body, cfg, h, blocks, kind):
             if normal or any(H in r for H in enclosing):
                 # the exit edge of an inner exhausted iterator (nested pull loops) is not a break
                 if x in eb:
+                    continue
+                if _error_edge(ctx, body, cfg, x, y, h, enclosing):
                     continue
                 bad = (x, y)
     if bad:
